@@ -8,6 +8,7 @@ package kafka
 // trace that TLC validates against specs/KafkaMon.tla.
 
 import (
+	"errors"
 	"bufio"
 	"context"
 	"encoding/json"
@@ -46,6 +47,7 @@ type c10Scenario struct {
 	Single  bool     `json:"single"`
 	Seed    int64    `json:"seed"`
 	Recs    []c10Rec `json:"recs"`
+	DQ      bool     `json:"dq"`     // a dead queue is configured; records of class F fail in the main output until they are given up
 	Revoke  bool     `json:"revoke"` // a rebalance takes the partitions away (splitConsume.Lost) while the records handed over sit in the output
 }
 
@@ -214,17 +216,57 @@ func (o *c10Output) Start(_ pipeline.AnyConfig, p *pipeline.OutputPluginParams) 
 		PipelineName: p.PipelineName, OutputType: "verif_c10", Controller: p.Controller, Workers: o.r.sc.Workers,
 		BatchSizeCount: o.r.sc.Batch, FlushTimeout: 10 * time.Millisecond, MetricCtl: p.MetricCtl,
 	}
-	o.batcher = pipeline.NewRetriableBatcher(opts, o.send, pipeline.BackoffOpts{MinRetention: time.Millisecond, Multiplier: 1.5, AttemptNum: 1},
-		func(err error, events []*pipeline.Event) {})
+	router := p.Router
+	o.batcher = pipeline.NewRetriableBatcher(opts, o.send, pipeline.BackoffOpts{MinRetention: time.Millisecond, Multiplier: 1.5, AttemptNum: 1,
+		IsDeadQueueAvailable: o.r.sc.DQ},
+		func(err error, events []*pipeline.Event) {
+			// what the real outputs do on give-up: the events go to the dead queue (if there is one)
+			if o.r.sc.DQ {
+				for _, e := range events {
+					router.Fail(e)
+				}
+			}
+		})
 	ctx, cancel := context.WithCancel(context.Background())
 	o.cancel = cancel
 	o.batcher.Start(ctx)
 }
 func (o *c10Output) Stop()                 { o.batcher.Stop(); o.cancel() }
 func (o *c10Output) Out(e *pipeline.Event) { o.batcher.Add(e) }
+// the dead queue: a slow sink of its own; a record that ends there is finished when IT has acknowledged it
+type c10DeadQueue struct {
+	r       *c10Run
+	batcher *pipeline.Batcher
+}
+
+func (d *c10DeadQueue) Start(_ pipeline.AnyConfig, p *pipeline.OutputPluginParams) {
+	d.batcher = pipeline.NewBatcher(pipeline.BatcherOptions{PipelineName: p.PipelineName, OutputType: "verif_c10_dq", Controller: p.Controller,
+		Workers: 1, BatchSizeCount: 1, FlushTimeout: 10 * time.Millisecond, MetricCtl: p.MetricCtl,
+		OutFn: func(_ *pipeline.WorkerData, b *pipeline.Batch) {
+			ids := []int{}
+			b.ForEach(func(e *pipeline.Event) { ids = append(ids, c10ID(e)) })
+			time.Sleep(40 * time.Millisecond)
+			d.r.log("SendRet", "ids", ids, "ok", true)
+		}})
+	d.batcher.Start(context.Background())
+}
+func (d *c10DeadQueue) Stop()                 { d.batcher.Stop() }
+func (d *c10DeadQueue) Out(e *pipeline.Event) { d.batcher.Add(e) }
+
 func (o *c10Output) send(_ *pipeline.WorkerData, b *pipeline.Batch) error {
 	if o.hold != nil {
 		<-o.hold
+	}
+	if o.r.sc.DQ {
+		fail := false
+		b.ForEach(func(e *pipeline.Event) {
+			if rec, ok := o.r.recs[c10ID(e)]; ok && rec.Cls == "F" {
+				fail = true
+			}
+		})
+		if fail {
+			return errors.New("verif: the backend refuses this batch")
+		}
 	}
 	ids := []int{}
 	b.ForEach(func(e *pipeline.Event) {
@@ -291,6 +333,12 @@ func c10RunScenario(sc *c10Scenario) *c10Run {
 		PluginStaticInfo:  &pipeline.PluginStaticInfo{Type: "verif_out"},
 		PluginRuntimeInfo: &pipeline.PluginRuntimeInfo{Plugin: outp, ID: "verif_out"},
 	})
+	if sc.DQ {
+		p.SetDeadQueueOutput(&pipeline.OutputPluginInfo{
+			PluginStaticInfo:  &pipeline.PluginStaticInfo{Type: "verif_dq"},
+			PluginRuntimeInfo: &pipeline.PluginRuntimeInfo{Plugin: &c10DeadQueue{r: r}, ID: "verif_dq"},
+		})
+	}
 	r.log("Reset", "name", sc.Name)
 	p.Start()
 
